@@ -145,6 +145,23 @@ def walrus_if(test: int, value: int, body: int, tail: int, wrap: int) -> bool:
     return fin(before == after)
 
 
+def file_resource_leak(alias: int, u0: int, u1: int, u2: int, wrap: int) -> bool:
+    """fix-file-resource-leak (complete real pipeline) on `f = open(..)` [+ an alias] followed by three statements
+    of symbolic kinds (read through f, read through the alias, unrelated, read inside a comprehension, read inside
+    an if) at module level or in a function: with an `open` whose files refuse reads after close, the rewritten
+    module computes the same values and raises the same exception type (the `with` block must reach the last use).
+    post: _
+    """
+    from harness import leak
+    from vlib.core import fin
+
+    src = leak.build(alias, u0, u1, u2, wrap)
+    before, after, _out = leak.run(src)
+    if before[0] != "val":
+        return fin(True)
+    return fin(before == after)
+
+
 def _load_registry():
     from codemodder.registry import load_registered_codemods
 
@@ -159,6 +176,7 @@ def warmup():
     set_literal(2, 0, 2, 0, True, False)
     use_generator_call(2, 1, False, False, False)
     walrus_if(0, 0, 1, 2, 0)
+    file_resource_leak(1, 0, 1, 2, 1)
 
 
 SPEC = {
@@ -170,7 +188,7 @@ SPEC = {
         "InvertedBooleanCheckTransformer.leave_UnaryOperation / report_new_comparison / _invert_comparisons",
         "CombineCallsBaseCodemod.leave_BooleanOperation / matches_* / combine_*",
         "UseGenerator.leave_Call (E1 kernel over a symbolic call shape)",
-        "the complete real pipelines of remove-unnecessary-f-str, use-set-literal and use-walrus-if on selector-built programs (value comparison by exec)",
+        "the complete real pipelines of remove-unnecessary-f-str, use-set-literal, use-walrus-if and fix-file-resource-leak on selector-built programs (value comparison by exec)",
     ],
     "bounds": {
         "quick": "grammar `r = <expr>`: not-prefixed comparison chains of 1-2 operators out of == != < > <= >= is 'is not' in 'not in' over int names, a bool name, True, None, 0 and a container, bare / parenthesised / inside and-or contexts; and/or trees of depth <= 1 and all 3-atom shapes (with and without parentheses) over 5 of 8 startswith/endswith atoms and 5 of 7 isinstance/issubclass atoms.  Value sorts: unbounded ints, bools, None; predicates uninterpreted; per element name a 'denotes a 2-tuple' flag",
@@ -183,7 +201,7 @@ SPEC = {
         "the evaluator is validated against exec() on sampled programs and every sat model is replayed by exec",
     ],
     "stubs": ["FileContext with a non-existent path (nothing is written)"],
-    "outside": ["with-wrapping (fix-file-resource-leak), import codemods (order-imports, unused-imports), lazy logging, sql parameterization: statement-level, scope or call-effect semantics beyond the evaluator (the seeded changes C08_a and C02_a live there and are NOT caught)"],
+    "outside": ["with-threading-lock, import codemods (order-imports, unused-imports), lazy logging, sql parameterization: statement-level, scope or call-effect semantics beyond the evaluator (the seeded changes C08_a and C02_a live there and are NOT caught)"],
     "rule": "programs = grammar programs pushed through the real pipeline; distinct_nontrivial = programs the codemod changed; disagreements_checked = z3 equivalence queries on changed programs",
     "drivers": [translation_validation, planted],
     "xh": [
@@ -191,5 +209,6 @@ SPEC = {
         __import__("vlib.main", fromlist=["Xh"]).Xh("unnecessary_fstring", 300, 600),
         __import__("vlib.main", fromlist=["Xh"]).Xh("set_literal", 300, 600),
         __import__("vlib.main", fromlist=["Xh"]).Xh("walrus_if", 400, 800),
+        __import__("vlib.main", fromlist=["Xh"]).Xh("file_resource_leak", 400, 800),
     ],
 }
